@@ -22,8 +22,20 @@ def build(rng, tier):
             if afj and j % 2 == 1:
                 a, b, sw = afj[j // 2 % len(afj)]
                 inp = gen.skew_join_input(rng.fork(f"{pid}s{j}"), inp, a, b, sw)
+            kind = "agg-first-skewed" if afj and j % 2 == 1 else "agg"
+            if j % 4 == 2:
+                # the inputs already contain tuples that rules derive again (once each: no duplicate rows in any input vector): a head update that
+                # pushes an existing row again makes multiplicity-sensitive aggregates over-count
+                db = eng.naive_model(p, inp)
+                r3 = rng.fork(f"{pid}x{j}")
+                inp = {r: list(rows) for r, rows in inp.items()}
+                for rel in range(len(p["rels"])):
+                    have = set(inp.get(rel, []))
+                    extra = [tuple(t) for t in sorted(db.get(rel, ())) if tuple(t) not in have][: r3.range(0, 3)]
+                    inp[rel] = list(inp.get(rel, [])) + extra
+                kind = "agg-inputs-contain-derivable"
             inst = f"{pid}_{j}"
-            cases.append(engcheck.Case(pid, inst, engcheck.std_history(inst, pid, inp), {"inp": inp, "kind": "agg-first-skewed" if afj and j % 2 == 1 else "agg"}))
+            cases.append(engcheck.Case(pid, inst, engcheck.std_history(inst, pid, inp), {"inp": inp, "kind": kind}))
             if j % 4 == 3:
                 # known-finding class: duplicate rows in the input (F15); a second run() (F2, fixed by 8b2e261) must pass
                 r2 = rng.fork(f"{pid}d{j}")
